@@ -91,3 +91,70 @@ func c16FilesOfTemplatesRegisteredUnderOtherNames(cases string, res *Result) {
 		}
 	}
 }
+
+// c16FilesThatArriveLater: a compiled loader that was asked for a name before its file existed reads the file once it
+// is there, whoever wrote it (another loader object on the same directory, CompileAll of another engine).
+func c16FilesThatArriveLater(cases string, res *Result) {
+	dir := filepath.Join(filepath.Dir(cases), "c16later")
+	defer os.RemoveAll(dir)
+	const src = "Later {{ v }}{% if v %}!{% endif %}"
+	for _, wiring := range []string{"direct", "chain", "chain-behind-empty-array", "override-directory"} {
+		for _, cache := range []bool{true, false} {
+			os.RemoveAll(dir)
+			os.MkdirAll(filepath.Join(dir, "shared"), 0o755)
+			os.MkdirAll(filepath.Join(dir, "override"), 0o755)
+			serve := twig.NewCompiledLoader(filepath.Join(dir, "shared"))
+			e := twig.New()
+			e.SetCache(cache)
+			switch wiring {
+			case "direct":
+				e.RegisterLoader(serve)
+			case "chain":
+				e.RegisterLoader(twig.NewChainLoader([]twig.Loader{serve}))
+			case "chain-behind-empty-array":
+				e.RegisterLoader(twig.NewChainLoader([]twig.Loader{twig.NewArrayLoader(map[string]string{}), serve}))
+			default:
+				e.RegisterLoader(twig.NewChainLoader([]twig.Loader{twig.NewCompiledLoader(filepath.Join(dir, "override")), serve}))
+			}
+			c := Case{"stream": "files-that-arrive-later", "wiring": wiring, "cache": cache}
+			res.Hist["stream:files-that-arrive-later"]++
+			ctx := map[string]interface{}{"v": "V"}
+			if _, err := e.Render("page", ctx); err == nil {
+				continue // nothing written yet: must fail
+			}
+			e.Render("page", ctx)
+			build := twig.New()
+			build.RegisterString("page", src)
+			if twig.NewCompiledLoader(filepath.Join(dir, "shared")).CompileAll(build) != nil {
+				continue
+			}
+			want, _ := build.Render("page", ctx)
+			res.Evaluations++
+			got, err := e.Render("page", ctx)
+			if err != nil {
+				got = "error: " + err.Error()
+			}
+			if got != want {
+				res.add(Finding{Kind: "oracle", Where: "files-that-arrive-later/" + wiring, Case: c, Expected: want, Observed: got,
+					Detail: "the serving engine asked for the name twice before the build wrote the compiled file into the directory its loader reads"})
+				continue
+			}
+			if wiring == "override-directory" && !cache {
+				// an override compiled later into the directory in front wins from then on
+				ob := twig.New()
+				ob.RegisterString("page", "Override {{ v }}")
+				if twig.NewCompiledLoader(filepath.Join(dir, "override")).SaveCompiled(ob, "page") == nil {
+					res.Evaluations++
+					got, err := e.Render("page", ctx)
+					if err != nil {
+						got = "error: " + err.Error()
+					}
+					if got != "Override V" {
+						res.add(Finding{Kind: "oracle", Where: "files-that-arrive-later/override", Case: c, Expected: "Override V", Observed: got,
+							Detail: "caching is off; a compiled file written into the directory in front is read back from then on"})
+					}
+				}
+			}
+		}
+	}
+}
